@@ -82,6 +82,11 @@ end
 
 def refKey : Str := c!"$ref"
 
+/-- `[s]` for a string value, `[]` otherwise -/
+def J.strVal : J → List Str
+  | .str s => [s]
+  | _ => []
+
 mutual
 /-- every string value stored under a key `"$ref"`, anywhere in the value, in document order -/
 def J.refs : J → List Str
@@ -91,7 +96,7 @@ def J.refs : J → List Str
 def refsKvs : List (Str × J) → List Str
   | [] => []
   | (k, v) :: rest =>
-    (if k = refKey then (match v with | .str s => [s] | _ => []) else []) ++ v.refs ++ refsKvs rest
+    (if k = refKey then v.strVal else []) ++ v.refs ++ refsKvs rest
 def refsList : List J → List Str
   | [] => []
   | x :: xs => x.refs ++ refsList xs
@@ -104,9 +109,7 @@ def pointer (r : Str) : Option (List Str) :=
 /-- walk a key path through nested dicts -/
 def getPath : J → List Str → Option J
   | j, [] => some j
-  | .obj kvs, k :: ks => match lookup kvs k with
-    | some v => getPath v ks
-    | none => none
+  | .obj kvs, k :: ks => (lookup kvs k).bind (fun v => getPath v ks)
   | _, _ :: _ => none
 
 /-- the reference `r` resolves inside the document `doc` -/
